@@ -1,18 +1,96 @@
-import Mastverif.Lemmas.WF
+import Mastverif.Lemmas.History
 /-!
-# C01 — map semantics (property theorems)
+# C01 — map semantics match a sorted-map model for every history (property theorems)
 
-Full statement (target): for every history of insert / update / delete / lookup / iterate /
-clone / persist / reload, every result equals that of a sorted association list.
-Proved so far (see DESIGN.md for the work list): the building blocks below; the history
-theorem `C01_refines` is being assembled from them.
+`C01_refines`: for every tree that satisfies the invariant `Tree.Inv` (shape `WF`, strictly
+ascending entries, size = number of entries, thresholds = powers of the branch factor) — in
+particular the empty tree of any branch factor ≥ 2 — and for EVERY finite sequence of
+insert / update / delete / lookup / iterate / size / persist operations, with ANY layer function
+(every layer assignment a user `Key` type could produce), the outputs of the tree model are
+exactly the outputs of a sorted association list:
+a lookup returns the last value written or not-found, the size is the number of live entries,
+iteration is the ascending entry list, read-only operations change nothing, a delete of an
+absent key or with another value fails without effect, and no operation panics or errs
+(`C01_no_panic_no_error`).  Persisting turns in-memory nodes into named ones and changes no
+output.  The per-operation theorems (`C01_insert_refines`, `C01_delete_refines`,
+`C01_lookup_refines`) are what the induction uses.
+Keys are `Nat` with the natural order: every Go key kind is driven through an
+order-preserving code (Model/Codec.lean), and the order itself is C14's.
+Tie: family `map`.
 -/
-namespace Mast.T
+namespace Mast
+open T
 
-/-- `split` partitions the entries of a subtree around the new key, losing and inventing nothing. -/
-theorem C01_split_partitions (t : T) (x : Nat) (hs : Sorted (toList t)) (hx : ∀ e ∈ toList t, e.1 ≠ x) :
-    toList (split t x).1 = keysLt x (toList t) ∧ toList (split t x).2 = keysGt x (toList t) :=
-  toList_split t x hs hx
+namespace Tree
+variable (layer : Nat → Nat)
 
-end Mast.T
-#print axioms Mast.T.C01_split_partitions
+theorem C01_insert_refines (m : Tree) (k v : Nat) (hi : Inv layer m) :
+    ∃ m', insert layer m k v = .ok m' ∧ Inv layer m' ∧ m'.toList = insL k v m.toList :=
+  let ⟨m', h1, h2, h3, _⟩ := insert_spec layer m k v hi
+  ⟨m', h1, h2, h3⟩
+
+theorem C01_delete_refines (m : Tree) (k v : Nat) (hi : Inv layer m) :
+    (getL k m.toList = some v → ∃ m', delete layer m k v = .ok m' ∧ Inv layer m' ∧ m'.toList = delL k m.toList) ∧
+    (getL k m.toList ≠ some v → ∃ e, delete layer m k v = .err e) := by
+  constructor
+  · intro hp
+    obtain ⟨m', h1, h2, h3, _⟩ := delete_spec layer m k v hi hp
+    exact ⟨m', h1, h2, h3⟩
+  · exact delete_absent layer m k v hi
+
+theorem C01_lookup_refines (m : Tree) (k : Nat) (hi : Inv layer m) :
+    m.lookup layer k = getL k m.toList := lookup_eq layer m k hi
+
+theorem C01_size_is_count (m : Tree) (hi : Inv layer m) : m.size = m.toList.length := hi.size
+
+theorem C01_iteration_sorted (m : Tree) (hi : Inv layer m) : Sorted m.toList := hi.sorted
+
+/-- **C01.** Every history behaves like the sorted association list. -/
+theorem C01_refines (e : Enc) : ∀ (ops : List Op) (m : Tree), Inv layer m →
+    runT layer e m ops = runL m.toList ops := by
+  intro ops
+  induction ops with
+  | nil => intro m _; rfl
+  | cons op ops ih =>
+    intro m hi
+    obtain ⟨h1, h2, h3⟩ := step_refines layer e m op hi
+    simp only [runT, runL]
+    rw [h1, ih _ h2, h3]
+
+/-- from the empty tree of any branch factor ≥ 2 -/
+theorem C01_refines_from_empty (e : Enc) (bf : Nat) (hbf : 2 ≤ bf) (ops : List Op) :
+    runT layer e (Tree.empty bf) ops = runL [] ops := by
+  have := C01_refines layer e ops (Tree.empty bf) (inv_empty layer bf hbf)
+  simpa [Tree.toList, Tree.empty, T.toList] using this
+
+theorem runL_no_panic : ∀ (ops : List Op) (l : List (Nat × Nat)), Out.panic ∉ runL l ops := by
+  intro ops
+  induction ops with
+  | nil => intro l; simp [runL]
+  | cons op ops ih =>
+    intro l
+    simp only [runL, List.mem_cons, not_or]
+    refine ⟨?_, ih _⟩
+    cases op <;> simp [stepL]
+    split <;> simp
+
+/-- no call panics, on any history (the only `err` outputs are the two delete cases of the spec) -/
+theorem C01_no_panic_no_error (e : Enc) (ops : List Op) (m : Tree) (hi : Inv layer m) :
+    Out.panic ∉ runT layer e m ops := by
+  rw [C01_refines layer e ops m hi]; exact runL_no_panic ops _
+
+/-- non-vacuity: a concrete history on the empty tree of branch factor 2, layers k % 3 -/
+example : runL [] [Op.ins 4 1, Op.ins 9 2, Op.ins 4 3, Op.del 9 2, Op.get 4, Op.size, Op.iter] =
+    [.ok, .ok, .ok, .ok, .val (some 3), .num 1, .list [(4, 3)]] := by
+  simp [runL, stepL, insL, getL, delL]
+
+end Tree
+end Mast
+#print axioms Mast.Tree.C01_insert_refines
+#print axioms Mast.Tree.C01_delete_refines
+#print axioms Mast.Tree.C01_lookup_refines
+#print axioms Mast.Tree.C01_size_is_count
+#print axioms Mast.Tree.C01_iteration_sorted
+#print axioms Mast.Tree.C01_refines
+#print axioms Mast.Tree.C01_refines_from_empty
+#print axioms Mast.Tree.C01_no_panic_no_error
